@@ -236,14 +236,18 @@ def _representations(which):
             variants["split_by_flag"] = run("byflag", ["flag_clear.bam", "flag_set.bam"], "chr9.4M.gtf.gz", ["--complete_genedb"])
         if "yaml_same_names" in which:
             # the two parts as per-run folders with one file name, listed in a YAML - once as they are, once under one shared label
+            # the YAML and the files it names (by relative paths) live in a folder of their own; the working directory of the run holds
+            # files of the same relative names - stale copies - which must not be taken instead
             for k, sub in enumerate(("runA", "runB")):
+                os.makedirs(os.path.join(d, "ydir", sub), exist_ok=True)
                 os.makedirs(os.path.join(d, sub), exist_ok=True)
                 for ext in ("", ".bai"):
-                    shutil.copy(os.path.join(d, "part%d.bam%s" % (k + 1, ext)), os.path.join(d, sub, "reads.bam" + ext))
+                    shutil.copy(os.path.join(d, "part%d.bam%s" % (k + 1, ext)), os.path.join(d, "ydir", sub, "reads.bam" + ext))
+                    shutil.copy(os.path.join(d, "empty.bam%s" % ext), os.path.join(d, sub, "reads.bam" + ext))
             for name, labels in (("same_base_name", ""), ("same_label", ',\n    labels: ["flowcell1", "flowcell1"]')):
-                with open(os.path.join(d, name + ".yaml"), "w") as f:
+                with open(os.path.join(d, "ydir", name + ".yaml"), "w") as f:
                     f.write('[\n  data format: "bam",\n  {\n    name: "S",\n    long read files: [\n      "runA/reads.bam",\n      "runB/reads.bam"\n    ]%s\n  }\n]\n' % labels)
-                variants["yaml_" + name] = run("y" + name, ["--yaml", name + ".yaml"], "chr9.4M.gtf.gz", ["--complete_genedb"])
+                variants["yaml_" + name] = run("y" + name, ["--yaml", os.path.join("ydir", name + ".yaml")], "chr9.4M.gtf.gz", ["--complete_genedb"])
         if "replaced_gz" in which:
             # history in one output folder: a run with an annotation file, the file replaced by another release under the same name,
             # a second run into the same folder - it must equal a fresh run with the new release
@@ -301,7 +305,7 @@ def replay_repr(d):
 
 
 @bounded("C12.representations", ["C12"], note="real pipeline runs on the bundled chr9 data: the same alignments as one BAM, split over two "
-         "BAMs, accompanied by a BAM without a single record (first or last in the list), split by the duplicate / QC-fail flag bits, or given as two files of one name in two folders through a YAML (with and without a shared label) (thorough: also a second run into the same output folder after the gzipped annotation was replaced by another release under the same name, against a fresh run), the annotation gzipped or plain (thorough: also as the pre-built gffutils database and with inferred genes/transcripts) "
+         "BAMs, accompanied by a BAM without a single record (first or last in the list), split by the duplicate / QC-fail flag bits, or given as two files of one name in two folders through a YAML in a folder of its own, by relative paths, while the working directory holds other files of the same relative names (with and without a shared label) (thorough: also a second run into the same output folder after the gzipped annotation was replaced by another release under the same name, against a fresh run), the annotation gzipped or plain (thorough: also as the pre-built gffutils database and with inferred genes/transcripts) "
          "must give identical read assignments, corrected alignments and ungrouped reference-based tables (as multisets of records)")
 def c12_repr(tier, rng):
     which = ["split_bam", "empty_first_bam", "split_by_flag", "yaml_same_names", "plain_gtf"] if tier == "quick" else ["split_bam", "empty_first_bam", "empty_last_bam", "split_by_flag", "yaml_same_names", "replaced_gz", "plain_gtf", "inferred", "prebuilt_db"]
